@@ -5,25 +5,25 @@ import json, os, subprocess, sys
 suffix = sys.argv[1]
 want = sys.argv[2:]
 AVOID = {
- "C01": "OFFSET dropped without LIMIT; time-dimension truncation changes; splicing a computed dimension's SQL unparenthesised into a pushed-down filter; count_distinct over the key column emitted as COUNT(raw); top-level or in a measure filter losing its parentheses; compile memoised per sorted field signature; de-duplicating AND-conjuncts by case-folded / whitespace-collapsed text",
- "C02": "composite key concatenated without separator; mixed fan-out/non-fan-out references; skipping symmetric aggregates when a one_to_many hop joins on part of the target's composite key; mislabelled junction hop cardinality in build_adjacency; IS NOT DISTINCT FROM on composite-key hops; fan-out classification memoised on the graph and reset only by add_model; collecting the FULL OUTER JOIN keys of the multi-fact form in a dict keyed by the dimension without its granularity; a requested dimension named like a join key emitting its SQL under the key's alias",
- "C03": "NULL-safe join replaced by = for time dimensions; pushing ORDER BY/LIMIT into the per-model sub-queries; memoised join paths not cleared by build_adjacency(); excluding min/max-only models from the multi-fact decision; relabelling a many_to_one edge whose foreign key is a declared key as one_to_one; keeping only the finest granularity of a time dimension as multi-fact join key",
- "C04": "bare IS NULL filter no longer forcing INNER; whitespace inside literals; rewriting a key-only filter onto the foreign key (join elimination); splicing a joined model's dimension SQL unparenthesised; identical segments of two models applied once; extending the caller's filters list in place with resolved segments; splitting NOT (a OR b) into NOT a, NOT b without re-parenthesising",
- "C05": "graph-level metric lookup order; select aliases leaking between CTEs / sub-selects; ORDER BY direction inherited from the previous key; dropping a second granularity of the same dimension from the select list; rewritten SQL memoised on the graph by statement text; LIMIT read as `count or fetch_count` (LIMIT 0)",
- "C06": "memoising metric SQL without model context; dropping parentheses around substituted components with * or / at the top; skipping fill_nulls_with when the formula is a COALESCE; dropping NULLIF when a ratio's denominator is a ratio; measure-owner index keeping the last model that defines a name; passing the target dialect to sqlglot builder calls (integer division)",
- "C07": "coarser granularity computed from declared base bucket; suppressing default time dimensions when another model's time dimension is requested; joining multi-fact sub-results on the finest granularity only; grouping several granularities by the finest only; appending the default time dimension to the caller's dimension list; accepting year-from-week in _is_granularity_compatible",
- "C08": "granularity test admitting week->year; declared build ranges; routing filtered SUM measures stored as SUM(CASE ... ELSE 0); query-side sets shared between candidate rollups; routing count_distinct at the rollup's own grain; filter columns memoised per predicate shape that blanks digits inside identifiers; matching a rollup on the finest requested granularity only",
- "C09": "dropping a name from the week exception; GRANULARITY_HIERARCHY as a defaultdict polluted by the recommender; lru_cache'd nesting sets mutated in place; replacing the query granularity by the dimension's declared one; cached_property of servable granularities surviving model_copy; matching on the finest requested granularity and dropping the re-check of the others",
- "C10": "skipping a second relationship between a linked pair; registration interleaved with lookups; Dijkstra with a swapped cost tuple; dropping the explicit primary_key of a junction relationship; silently skipping unreachable models in the join loop; resumable breadth-first search re-queued at the wrong end; a dimension named like a join key emitting its SQL under the key's alias",
- "C11": "omitting metric sql when equal to the name; not exporting a relationship primary_key equal to 'id'; exporting models in reference order; flattening multi-line SQL on export; parsed native documents cached by text hash with shared objects; deciding 'already written with its model' by metric name",
- "C12": "MetricFlow expr omitted when equal to measure name; Cube exporter marking a differently named dimension as primary key; Hex importer expanding of: to a like-named computed dimension; OSI exporter reordering one side of a composite key; Omni importer and exporter disagreeing on the foreign-key side of one_to_one; Holistics relationships kept in a dict by generated name <model>_<related>",
- "C13": "Cube rule requiring measures:; moving the BSL '_.' rule ahead of other rules; skipping files when any component of the given path is hidden; sniffing only the first 32 KiB of a file; native file skipped when its folder already produced MetricFlow models; skipping YAML files with dbt configuration stems before sniffing",
- "C15": "path memo filled with a reversed path; in-place extension of a composite primary-key list during compile; filter-only models appended in set-iteration order; sorting Model.pre_aggregations in place; lru_cache'd sqlglot trees mutated by segment qualification; aliases numbered by enumerating a set of clashing fields",
- "C16": "multi-pass parameter substitution; non-builtin value types; folding newlines in filters after interpolation; allowing runs of hyphens in unquoted values; not escaping runs of adjacent quotes; a literal-blanking regex honouring backslash escapes deciding which models a filter names; de-duplicating pushed-down conditions by lower-cased text",
- "C17": "ROWS frame chosen from declared rather than queried granularity; lag offsets derived by floor division (qoq at week grain); partition list extended in place by the grain-to-date branch; hoisting NULLIF into the LAG CTE; class-level LAG table mutated through a shallow copy; PARTITION BY dropping dimensions whose name starts with the time dimension's name",
- "C18": "merge DELETE boundary truncated to the bucket; first refresh on an empty rollup; memoising the watermark on the PreAggregation object; calendar lookbacks folded into day counts; watermark = lowest per-dimension-group maximum; refresh() falling back to refresh_key.update_window in every mode; merge DELETE only removing rows that match a staged row (NULL dimension values)",
- "C19": "dirty flag cleared before the rebuild; memoised predecessor tree published before being filled; path memo cleared at the end of every rebuild (test-then-read race); in-progress flag letting a second thread search a stale adjacency; dedupe index shared between overlapping adjacency rebuilds; sorting the shared neighbour list in place during the search",
- "C20": "granular time dimensions left out of the join check; supported_granularities consulted before the dimension type; dependencies substituted in name order instead of longest-first; lru_cache'd dependency resolution keyed by graph identity; add_model invalidating the adjacency only when the new model declares relationships; qualifying pushed-down filter columns of a sql-backed model with t.",
+ "C01": "OFFSET dropped without LIMIT; time-dimension truncation changes; splicing a computed dimension's SQL unparenthesised into a pushed-down filter; count_distinct over the key column emitted as COUNT(raw); top-level or in a measure filter losing its parentheses; compile memoised per sorted field signature; de-duplicating AND-conjuncts by case-folded / whitespace-collapsed text; merge_model copying unset attributes of a re-declared item from the parent (extends)",
+ "C02": "composite key concatenated without separator; mixed fan-out/non-fan-out references; skipping symmetric aggregates when a one_to_many hop joins on part of the target's composite key; mislabelled junction hop cardinality in build_adjacency; IS NOT DISTINCT FROM on composite-key hops; fan-out classification memoised on the graph and reset only by add_model; collecting the FULL OUTER JOIN keys of the multi-fact form in a dict keyed by the dimension without its granularity; a requested dimension named like a join key emitting its SQL under the key's alias; a symmetric form for stddev / variance whose Bessel correction counts joined rows",
+ "C03": "NULL-safe join replaced by = for time dimensions; pushing ORDER BY/LIMIT into the per-model sub-queries; memoised join paths not cleared by build_adjacency(); excluding min/max-only models from the multi-fact decision; relabelling a many_to_one edge whose foreign key is a declared key as one_to_one; keeping only the finest granularity of a time dimension as multi-fact join key; a hop limit in find_relationship_path combined with connectivity-only validation",
+ "C04": "bare IS NULL filter no longer forcing INNER; whitespace inside literals; rewriting a key-only filter onto the foreign key (join elimination); splicing a joined model's dimension SQL unparenthesised; identical segments of two models applied once; extending the caller's filters list in place with resolved segments; splitting NOT (a OR b) into NOT a, NOT b without re-parenthesising; accepting a metric-value filter on a rollup 'at its own grain' and applying it before re-aggregation",
+ "C05": "graph-level metric lookup order; select aliases leaking between CTEs / sub-selects; ORDER BY direction inherited from the previous key; dropping a second granularity of the same dimension from the select list; rewritten SQL memoised on the graph by statement text; LIMIT read as `count or fetch_count` (LIMIT 0); rewriting the main SELECT of a WITH statement whose FROM names a model while a CTE of that name exists",
+ "C06": "memoising metric SQL without model context; dropping parentheses around substituted components with * or / at the top; skipping fill_nulls_with when the formula is a COALESCE; dropping NULLIF when a ratio's denominator is a ratio; measure-owner index keeping the last model that defines a name; passing the target dialect to sqlglot builder calls (integer division); restricting own-model-first resolution to metrics with an aggregation",
+ "C07": "coarser granularity computed from declared base bucket; suppressing default time dimensions when another model's time dimension is requested; joining multi-fact sub-results on the finest granularity only; grouping several granularities by the finest only; appending the default time dimension to the caller's dimension list; accepting year-from-week in _is_granularity_compatible; compile() appending unselected ORDER BY dimensions to the requested dimensions",
+ "C08": "granularity test admitting week->year; declared build ranges; routing filtered SUM measures stored as SUM(CASE ... ELSE 0); query-side sets shared between candidate rollups; routing count_distinct at the rollup's own grain; filter columns memoised per predicate shape that blanks digits inside identifiers; matching a rollup on the finest requested granularity only; storing COALESCE(agg, fill_nulls_with) per rollup bucket",
+ "C09": "dropping a name from the week exception; GRANULARITY_HIERARCHY as a defaultdict polluted by the recommender; lru_cache'd nesting sets mutated in place; replacing the query granularity by the dimension's declared one; cached_property of servable granularities surviving model_copy; matching on the finest requested granularity and dropping the re-check of the others; moving the granularity gate into the per-metric loop (metric-less queries)",
+ "C10": "skipping a second relationship between a linked pair; registration interleaved with lookups; Dijkstra with a swapped cost tuple; dropping the explicit primary_key of a junction relationship; silently skipping unreachable models in the join loop; resumable breadth-first search re-queued at the wrong end; a dimension named like a join key emitting its SQL under the key's alias; validation by union-find over relationship declarations",
+ "C11": "omitting metric sql when equal to the name; not exporting a relationship primary_key equal to 'id'; exporting models in reference order; flattening multi-line SQL on export; parsed native documents cached by text hash with shared objects; deciding 'already written with its model' by metric name; un-escaping doubled quotes before deciding whether a SQL-definition value is one literal",
+ "C12": "MetricFlow expr omitted when equal to measure name; Cube exporter marking a differently named dimension as primary key; Hex importer expanding of: to a like-named computed dimension; OSI exporter reordering one side of a composite key; Omni importer and exporter disagreeing on the foreign-key side of one_to_one; Holistics relationships kept in a dict by generated name <model>_<related>; Cube exporter treating a count over a column whose name ends with the key name as a row count",
+ "C13": "Cube rule requiring measures:; moving the BSL '_.' rule ahead of other rules; skipping files when any component of the given path is hidden; sniffing only the first 32 KiB of a file; native file skipped when its folder already produced MetricFlow models; skipping YAML files with dbt configuration stems before sniffing; sending every YAML file next to an Omni model.yaml to the Omni adapter",
+ "C15": "path memo filled with a reversed path; in-place extension of a composite primary-key list during compile; filter-only models appended in set-iteration order; sorting Model.pre_aggregations in place; lru_cache'd sqlglot trees mutated by segment qualification; aliases numbered by enumerating a set of clashing fields; Model.get_metric resolving extends by building a new (auto-registering) Metric",
+ "C16": "multi-pass parameter substitution; non-builtin value types; folding newlines in filters after interpolation; allowing runs of hyphens in unquoted values; not escaping runs of adjacent quotes; a literal-blanking regex honouring backslash escapes deciding which models a filter names; de-duplicating pushed-down conditions by lower-cased text; turning a string compared with a numeric dimension into a number literal when it starts like a number",
+ "C17": "ROWS frame chosen from declared rather than queried granularity; lag offsets derived by floor division (qoq at week grain); partition list extended in place by the grain-to-date branch; hoisting NULLIF into the LAG CTE; class-level LAG table mutated through a shallow copy; PARTITION BY dropping dimensions whose name starts with the time dimension's name; handing the window path the filters as they were before parameter interpolation",
+ "C18": "merge DELETE boundary truncated to the bucket; first refresh on an empty rollup; memoising the watermark on the PreAggregation object; calendar lookbacks folded into day counts; watermark = lowest per-dimension-group maximum; refresh() falling back to refresh_key.update_window in every mode; merge DELETE only removing rows that match a staged row (NULL dimension values); _table_exists through information_schema with rpartition('.') (database-qualified names)",
+ "C19": "dirty flag cleared before the rebuild; memoised predecessor tree published before being filled; path memo cleared at the end of every rebuild (test-then-read race); in-progress flag letting a second thread search a stale adjacency; dedupe index shared between overlapping adjacency rebuilds; sorting the shared neighbour list in place during the search; appending inherited join edges to the published adjacency in place",
+ "C20": "granular time dimensions left out of the join check; supported_granularities consulted before the dimension type; dependencies substituted in name order instead of longest-first; lru_cache'd dependency resolution keyed by graph identity; add_model invalidating the adjacency only when the new model declares relationships; qualifying pushed-down filter columns of a sql-backed model with t.; merging same-named items of parent and child field by field (hybrid derived + agg metric)",
 }
 PREFER_G = ("Do NOT add caches, memo tables or other state that outlives a call, and do not mutate argument lists (a static scan now reports those). "
             "Prefer a change that sits OUTSIDE the main body of sidemantic/sql/generator.py where the property allows it -- in a helper under sidemantic/core "
@@ -34,7 +34,14 @@ PREFER_G = ("Do NOT add caches, memo tables or other state that outlives a call,
             "dimension type variants (boolean / numeric / time with formats), sql-backed models, order_by on aliases or on fields not selected, segments together with "
             "filters, one entry point behaving differently from another, or an exception path that leaves the call half done. Two cooperating edits in two files, each "
             "harmless alone, are welcome.")
-PREFER = PREFER_G if suffix == "g" else ("Prefer a change whose effect needs a MULTI-STEP sequence of API calls, state carried between calls, or TWO cooperating code sites "
+PREFER_H = ("Do NOT add caches, memo tables or other state that outlives a call, do not mutate argument lists, and do not touch model inheritance (extends): all of those are covered now. "
+            "Prefer a change whose effect depends on the DATA or its TYPES rather than on the query text -- DECIMAL / DOUBLE / HUGEINT measures, DATE vs TIMESTAMP columns, NULL keys and NULL "
+            "dimension values, empty tables and empty groups, duplicate key values, negative numbers, zero denominators, very large values, strings that differ in case or trailing blanks, "
+            "boolean dimensions -- or on a LESS USED ARGUMENT or OPTION of the public API (ungrouped=True, offset without limit, order_by DESC on a metric, custom aliases, "
+            "skip_default_time_dimensions, several rollups with use_preaggregations, preagg_schema, parameters, Model.default_time_dimension / default_grain, Dimension.supported_granularities, "
+            "Metric.fill_nulls_with / non-additive settings, Relationship.primary_key), or on the import / export path of ONE specific external format. A change in which two sites "
+            "cooperate (a helper and its caller in different files) is welcome.")
+PREFER = PREFER_H if suffix == "h" else PREFER_G if suffix == "g" else ("Prefer a change whose effect needs a MULTI-STEP sequence of API calls, state carried between calls, or TWO cooperating code sites "
           "(each harmless alone) -- rather than one more single-expression slip.") if suffix == "e" else (
           "Do NOT add caches, memo tables or any new state that outlives a call, and do not mutate argument lists (those were tried). Prefer a change "
           "that only an UNUSUAL INPUT exposes: names (one model's name contained in another's, reserved words, names with digits or underscores that "
